@@ -69,11 +69,21 @@ func c09(r *Report) propMeta {
 	}
 	r.Exists("next-is-8-bytes-big-endian", "pkg/bandrng.Rng.NextUint64", RetValEff(0, "call:bigEndian.Uint64", "const:8"), 1)
 
+	r.Rule("C09.R5", "E3 group creation admits only distinct participants")
+	cg := tK + "CreateGroup"
+	r.FailureCensus("create-group-rejections", cg, map[string]reject{
+		"empty":     {[]string{"global:types.ErrGroupCreationFailed"}, []Cond{{Op: "EQL", A: []string{"^len", "param:members"}, B: []string{"const:0"}, Want: true}}},
+		"too-large": {[]string{"global:types.ErrGroupCreationFailed"}, []Cond{{Op: "LSS", A: []string{"field:Params.MaxGroupSize"}, B: []string{"^len", "param:members"}, Want: true}}},
+		"duplicate": {[]string{"global:types.ErrInvalidGroup"}, []Cond{{Op: "BOOL", A: []string{"^lookup", "call:AccAddress.String", "param:members"}, Want: true}}},
+	})
+	r.Gate("members-stored-only-if-distinct", cg, CallEff("Keeper.SetMember"), []Cond{{Op: "BOOL", A: []string{"^lookup", "call:AccAddress.String", "param:members"}, Want: false, Desc: "address not seen before"}}, GateOpts{LoopAll: true, AnySite: true})
+
 	return propMeta{
 		Decided: []string{
 			"R1 validators enter the candidate set only inside the bonded-validator iterator and only if oracle-active; members only if IsActive and HasDE; `too few` is an error before any random number is drawn; exactly `size` / `threshold` picks are requested",
 			"R2 ChooseSome/ChooseOne/ChooseSomeMaxWeight never store into, append onto a re-slice of, copy into or sort memory that may alias the `weights` parameter, and every try receives that same parameter; one DRBG draw per pick; picked index removed from the remaining copy",
 			"R3 DRBG(seed = rolling seed, nonce = request id / signing nonce parameter, personalisation = chain id), SHA-256, 8-byte big-endian draws; signer selection is draw % (n-i), swap with position n-i-1, then sort by member id",
+			"R5 tss CreateGroup rejects an empty, an over-large and a member list with a repeated ACCOUNT (compared after decoding, so two spellings of one bech32 address count as one) before any member is stored: one participant cannot hold two seats of a committee (seed C09-5)",
 		},
 		Undecided: []string{"bit-for-bit conformance of the sampler to its specification and distinctness as a consequence of the arithmetic (needs an independent implementation over many inputs: another technique family) — the larger half of C09"},
 		Assume:    []string{"oasis drbg HMAC-DRBG implementation", "staking iterator yields bonded validators"},
